@@ -79,6 +79,7 @@ type Sched struct {
 	// is not enabled (0 = classic preemption bounding, 1 = delay bounding).
 	FreeSwitchCost int
 	resets         []func()
+	lastID         int
 }
 
 var cur *Sched
@@ -254,7 +255,14 @@ func (s *Sched) pick(from *T) *T {
 			en = append(en, from)
 			fromEnabled = true
 		}
-		for _, t := range s.threads {
+		// the others in round-robin order after the thread that ran last
+		base := s.lastID
+		if from != nil {
+			base = from.ID
+		}
+		n := len(s.threads)
+		for k := 1; k <= n; k++ {
+			t := s.threads[(base+k)%n]
 			if t != from && s.enabled(t) {
 				en = append(en, t)
 			}
@@ -275,6 +283,7 @@ func (s *Sched) pick(from *T) *T {
 			if idx > 0 && fromEnabled {
 				s.out.Preempts++
 			}
+			s.lastID = en[idx].ID
 			return en[idx]
 		}
 		// nobody enabled: advance virtual time to the earliest deadline / timer
